@@ -8,6 +8,8 @@ package main
 import (
 	"bytes"
 	"fmt"
+	"io"
+	"net/url"
 	"os"
 	"path/filepath"
 
@@ -47,6 +49,33 @@ func run(r *mon.Run) {
 		gen.ForceOrderProbe(g, b)
 		d := fmt.Sprintf("%s ex=%d primary=%v manifest=%v sigs=%v variants=%d", b.Version, len(b.Exchanges), b.PrimaryURL != nil, b.ManifestURL != nil, b.Signatures != nil, len(sets))
 		key := fmt.Sprintf("wf:%d:%s", i, d)
+		// every few bundles a write that FAILS comes first in the same process (invalid bundle, or a destination that
+		// breaks half-way): whatever it left behind must not leak into the next, valid, output
+		if i%5 == 1 {
+			bad := *b
+			switch (i / 5) % 3 {
+			case 0:
+				if b.Version == version.VersionB2 {
+					mu, _ := url.Parse("https://example.com/manifest")
+					bad.ManifestURL = mu // b2 cannot store a manifest URL: refused after the exchanges were staged
+				} else if len(b.Exchanges) > 0 {
+					bad.Exchanges = append(append([]*bundle.Exchange{}, b.Exchanges...), b.Exchanges[0]) // same URL twice without Variants
+				}
+				_, ferr := bad.WriteTo(io.Discard)
+				if ferr == nil && (b.Version == version.VersionB2 || len(b.Exchanges) > 0) && len(sets) == 0 {
+					r.Count("note:invalid-bundle-not-refused(C03's business)")
+				}
+			case 1:
+				if len(b.Exchanges) > 0 {
+					bad.Exchanges = append(append([]*bundle.Exchange{}, b.Exchanges...), b.Exchanges[len(b.Exchanges)-1])
+					bad.WriteTo(io.Discard)
+				}
+			default:
+				fw := &gen.FaultWriter{Limit: 40 + i%300, Short: i%2 == 0}
+				b.WriteTo(fw)
+			}
+			r.Count("failing-write-before-valid-write")
+		}
 		var outputs [][]byte
 		for _, dest := range []string{"plain", "readerfrom", "file"} {
 			if dest == "file" && i%8 != 0 {
